@@ -229,9 +229,9 @@ pub fn run_range(check: &str, thorough: bool, seed: u64, from: u64, to: u64, gen
       crate::gen14::GROUP_STATS.with(|g| {
          let g = g.borrow();
          bump(&mut sum.extra, "groups(program,input,schedule)", g.groups);
-         bump(&mut sum.extra, "groups_with_every_strike_point_enumerated", g.exhaustive_groups);
-         bump(&mut sum.extra, "groups_truncated_at_ENUM_readings", g.truncated_groups);
-         bump(&mut sum.extra, "strike_points_enumerated", g.readings_enumerated);
+         bump(&mut sum.extra, "groups_with_every_deadline_check_enumerated", g.exhaustive_groups);
+         bump(&mut sum.extra, "groups_truncated_at_ENUM_checks", g.truncated_groups);
+         bump(&mut sum.extra, "deadline_checks_enumerated", g.readings_enumerated);
       });
    }
    sum.wall_s = t0.elapsed().as_secs_f64();
